@@ -112,6 +112,20 @@ func init() {
 			return h, true
 		}
 	}
+	// reflect.Select: blocks until one case can proceed; returns its index. The case vector and the
+	// chosen index are exposed to contracts as the ghost names selCases / selChosen / selCalled.
+	libModels["reflect.Select"] = func(x *Exec, st *State, e *ast.CallExpr, a []Value, at []types.Type) (Value, bool) {
+		h := asTerm(a[0])
+		ch := x.fresh("chosen", SInt)
+		st.assume("(and (<= 0 " + ch.S + ") (< " + ch.S + " " + x.slen(h).S + "))")
+		st.names["selCases"] = h
+		st.names["$type:selCases"] = at[0]
+		st.names["selChosen"] = ch
+		st.names["selCalled"] = boolLit(true)
+		st.names["$selState"] = st.clone()
+		x.noteAssume("trusted: reflect.Select returns the index of one of the given cases (0 <= chosen < len(cases))")
+		return TupleV{ch, x.fresh("selv", SInt), x.fresh("selok", SBool)}, true
+	}
 	libModels["strconv.Atoi"] = func(x *Exec, st *State, e *ast.CallExpr, a []Value, _ []types.Type) (Value, bool) {
 		s := asTerm(a[0])
 		x.noteAssume("trusted: strconv.Atoi modelled by atoiVal/atoiErr of specs/common.smt2 (base 10, optional sign, int64 range)")
@@ -456,13 +470,11 @@ func (x *Exec) evalBuiltin(name string, e *ast.CallExpr, st *State) (Value, type
 			return h, t
 		case *types.Map:
 			ks, vs := x.sortOf(u.Key()), x.sortOf(u.Elem())
-			m := x.fresh("map", SInt)
-			st.assume("(> " + m.S + " 0)")
+			m := x.newRef(st, "map")
 			x.mapSet(st, m, ks, vs, Term{"((as const " + string(arraySort(ks, SBool)) + ") false)", ""}, Term{"((as const " + string(arraySort(ks, vs)) + ") " + zeroOf(vs).S + ")", ""})
 			return m, t
 		case *types.Chan:
-			c := x.fresh("chan", SInt)
-			st.assume("(> " + c.S + " 0)")
+			c := x.newRef(st, "chan")
 			return c, t
 		}
 	case "new":
@@ -470,8 +482,7 @@ func (x *Exec) evalBuiltin(name string, e *ast.CallExpr, st *State) (Value, type
 		if x.isLocStruct(t) {
 			return x.zeroValue(st, t), types.NewPointer(t)
 		}
-		p := x.fresh("ptr", SInt)
-		st.assume("(> " + p.S + " 0)")
+		p := x.newRef(st, "ptr")
 		return p, types.NewPointer(t)
 	case "panic":
 		x.evalArgs(e.Args, st)
@@ -708,6 +719,17 @@ func (x *Exec) evalSpecCall(e *ast.CallExpr, st *State) (Value, types.Type) {
 		}
 		tmp.old = nil
 		return x.eval(e.Args[0], tmp)
+	case "atSelect": // evaluate in the state in which reflect.Select was called (current state if it was not)
+		if snap, ok := st.names["$selState"].(*State); ok {
+			tmp := snap.clone()
+			for k, v := range st.names {
+				if _, ok := tmp.names[k]; !ok {
+					tmp.names[k] = v
+				}
+			}
+			return x.eval(e.Args[0], tmp)
+		}
+		return x.eval(e.Args[0], st)
 	case "forall", "exists":
 		// forall(k, lo, hi, body)
 		id, ok := e.Args[0].(*ast.Ident)
@@ -755,8 +777,8 @@ func (x *Exec) evalSpecCall(e *ast.CallExpr, st *State) (Value, types.Type) {
 		v := x.evalT(e.Args[0], st)
 		if x.assuming {
 			// a callee's postcondition: the result is a new reference, distinct from null
-			st.names["$fresh:"+v.S] = true
-			return Term{"(> " + v.S + " 0)", SBool}, types.Typ[types.Bool]
+			r := x.newRef(st, "res")
+			return Term{"(= " + v.S + " " + r.S + ")", SBool}, types.Typ[types.Bool]
 		}
 		var alts []string
 		for k, ok := range st.names {
